@@ -23,7 +23,10 @@ RULE = (
     "first task (the second task gets a shifted copy; both tasks share one operation and the second is named like the operation), "
     "success flags from every (ok, failed, warm-up ok, warm-up failed) count vector in 0..2, and structured streams at the "
     "percentile-set boundaries 9, 10, 99, 100, 999, 1000, 9999, 10000 with and without warm-up records. Each case: calculate results, "
-    "compare with the reference, repeat without the warm-up records (differential), store and re-load race.json. "
+    "compare with the reference, repeat without the warm-up records (differential), store and re-load race.json. Cluster-level "
+    "results: 30 index-stats / GC / segment / size / ingest metrics (with per-shard values where the telemetry device records them) "
+    "present all, none, each alone, all but each (thorough: every pair) x 1..3 values each: computed result = documented aggregation, "
+    "every attribute identical after the round trip through race.json. "
     "non-trivial = at least 2 normal records; distinct = the multiset"
 )
 ASSUMPTIONS = [
@@ -311,6 +314,119 @@ def boundary_cases(tier):
                 yield {"n": n, "variant": variant, "warm": warm}, {0: recs, 1: [(2.0, True, True)]}
 
 
+# ------------------------------------------------------------------------------------------------ layer G: cluster-level results
+# store metric -> (result attribute, aggregation) as documented in docs/metrics.rst / docs/summary_report.rst
+GLOBAL_TABLE = [
+    ("indexing_total_time", "total_time", "sum"), ("indexing_throttle_time", "indexing_throttle_time", "sum"),
+    ("merges_total_time", "merge_time", "sum"), ("merges_total_count", "merge_count", "sum"),
+    ("refresh_total_time", "refresh_time", "sum"), ("refresh_total_count", "refresh_count", "sum"),
+    ("flush_total_time", "flush_time", "sum"), ("flush_total_count", "flush_count", "sum"),
+    ("merges_total_throttled_time", "merge_throttle_time", "sum"),
+    ("node_total_young_gen_gc_time", "young_gc_time", "sum"), ("node_total_young_gen_gc_count", "young_gc_count", "sum"),
+    ("node_total_old_gen_gc_time", "old_gc_time", "sum"), ("node_total_old_gen_gc_count", "old_gc_count", "sum"),
+    ("node_total_zgc_cycles_gc_time", "zgc_cycles_gc_time", "sum"), ("node_total_zgc_cycles_gc_count", "zgc_cycles_gc_count", "sum"),
+    ("node_total_zgc_pauses_gc_time", "zgc_pauses_gc_time", "sum"), ("node_total_zgc_pauses_gc_count", "zgc_pauses_gc_count", "sum"),
+    ("segments_memory_in_bytes", "memory_segments", "median"), ("segments_doc_values_memory_in_bytes", "memory_doc_values", "median"),
+    ("segments_terms_memory_in_bytes", "memory_terms", "median"), ("segments_norms_memory_in_bytes", "memory_norms", "median"),
+    ("segments_points_memory_in_bytes", "memory_points", "median"), ("segments_stored_fields_memory_in_bytes", "memory_stored_fields", "median"),
+    ("dataset_size_in_bytes", "dataset_size", "sum"), ("store_size_in_bytes", "store_size", "sum"), ("translog_size_in_bytes", "translog_size", "sum"),
+    ("segments_count", "segment_count", "int-median"),
+    ("ingest_pipeline_cluster_count", "ingest_pipeline_cluster_count", "sum"), ("ingest_pipeline_cluster_time", "ingest_pipeline_cluster_time", "sum"),
+    ("ingest_pipeline_cluster_failed", "ingest_pipeline_cluster_failed", "sum"),
+]
+
+
+PER_SHARD = {"indexing_total_time": "total_time_per_shard", "indexing_throttle_time": "indexing_throttle_time_per_shard",
+             "merges_total_time": "merge_time_per_shard", "refresh_total_time": "refresh_time_per_shard", "flush_total_time": "flush_time_per_shard",
+             "merges_total_throttled_time": "merge_throttle_time_per_shard"}
+
+
+def global_cases(tier):
+    """which cluster-level metrics are present (all, none, each one alone, all but each one) x how many values each has (1..3)"""
+    n = len(GLOBAL_TABLE)
+    yield ("all", tuple(range(n)), 2)
+    yield ("all", tuple(range(n)), 1)
+    yield ("all", tuple(range(n)), 3)
+    yield ("none", (), 1)
+    for i in range(n):
+        yield ("only", (i,), 2)
+        yield ("all-but", tuple(j for j in range(n) if j != i), 2)
+    if tier == "thorough":
+        for i in range(n):
+            for j in range(i + 1, n):
+                yield ("pair", (i, j), 2)
+
+
+def check_global(case, res):
+    label, present, nvals = case
+    e = env()
+    m = e["metrics"]
+    import json
+
+    v = None
+    try:
+        store = build_store({0: [(1.0, True, True)], 1: [(2.0, True, True)]})
+        want, want_shards = {}, {}
+        for i in present:
+            name, attr, agg = GLOBAL_TABLE[i]
+            vals = [float(1000 * (i + 1) + 7 * k + (k * k)) for k in range(nvals)]
+            per_shard_attr = PER_SHARD.get(name)
+            shard_vals = []
+            for k, val in enumerate(vals):
+                if per_shard_attr:
+                    # index-stats documents as the telemetry device writes them: total plus the per-shard values
+                    shards = [val / 4.0, val / 4.0 + k + 1, val / 2.0 - k - 1]
+                    shard_vals += shards
+                    store.put_doc({"name": name, "value": val, "unit": "ms", "per-shard": shards}, level=m.MetaInfoScope.cluster,
+                                  absolute_time=2000.0 + k, relative_time=float(k))
+                else:
+                    store.put_value_cluster_level(name, val, "x", absolute_time=2000.0 + k, relative_time=float(k))
+            want[attr] = sum(vals) if agg == "sum" else (statistics.median(vals) if agg == "median" else int(statistics.median(vals)))
+            if per_shard_attr:
+                want_shards[per_shard_attr] = {"min": min(shard_vals), "median": statistics.median(shard_vals), "max": max(shard_vals), "unit": "ms"}
+        race = m.Race("2.12.0", None, "verif", "verif-race", RACE_TS, "benchmark-only", {}, e["track"], {}, e["challenge"], "defaults", {}, {})
+        gs = m.calculate_results(store, race)
+        for _name, attr, _agg in GLOBAL_TABLE:
+            got = getattr(gs, attr)
+            if attr in want:
+                if got is None or not close(got, want[attr]):
+                    v = ("global-metric-value", f"{attr}: result {got}, stored values give {want[attr]}")
+            elif got is not None:
+                v = ("global-metric-phantom", f"{attr}: result {got} although no such metric was recorded")
+            if v:
+                break
+        for attr in PER_SHARD.values():
+            got = getattr(gs, attr)
+            w = want_shards.get(attr, {})
+            if v is None and (set(got) != set(w) or any(got[k] != w[k] and not close(got[k], w[k]) for k in w if k != "unit") or got.get("unit") != w.get("unit")):
+                v = ("per-shard-stats", f"{attr}: result {got}, per-shard values give {w}")
+        if v is None:
+            race.add_results(gs)
+            fs = m.FileRaceStore(e["cfg"])
+            fs.store_race(race)
+            back = fs.find_by_race_id("verif-race")
+            gb = m.GlobalStats(back.results)
+            a, b = json.loads(json.dumps(vars(gs), default=str)), json.loads(json.dumps(vars(gb), default=str))
+            diff = {k: (a.get(k), b.get(k)) for k in sorted(set(a) | set(b)) if a.get(k) != b.get(k)}
+            if diff:
+                k0 = next(iter(diff))
+                v = ("roundtrip-global-metric", f"{k0}: computed {diff[k0][0]} read back {diff[k0][1]} ({len(diff)} attributes differ)")
+            elif json.loads(json.dumps(gs.as_flat_list())) != json.loads(json.dumps(gb.as_flat_list())):
+                v = ("roundtrip-flat-list", "flat lists differ")
+    except Exception as ex:  # noqa
+        import traceback
+
+        v = ("raises", f"{type(ex).__name__}: {ex} @ {traceback.extract_tb(ex.__traceback__)[-1][:3]}")
+    res.case(
+        case_repr={"cluster_level_metrics": label, "present": [GLOBAL_TABLE[i][0] for i in present][:4], "values_per_metric": nvals} if res.sample_now(13) else None,
+        nontrivial_key=("G", label, present, nvals) if present else None,
+        outcome_key=("G", v[0] if v else "ok", len(present), nvals),
+    )
+    if v:
+        res.violation(f"results:{v[0]}", f"cluster-level metrics {label} {[GLOBAL_TABLE[i][0] for i in present][:3]} x{nvals}: {v[1]}",
+                      {"global": [label, list(present), nvals]})
+
+
 def _shard(arg):
     import logging
 
@@ -318,7 +434,9 @@ def _shard(arg):
     kind, items = arg
     res = Result()
     for i, it in enumerate(items):
-        if kind == "small":
+        if kind == "global":
+            check_global(it, res)
+        elif kind == "small":
             check_case(it, res, roundtrip=(i % 4 == 0))
         else:
             check_case(it[1], res, roundtrip=True)
@@ -329,7 +447,10 @@ def run(tier, seed):
     small = list(small_cases(tier))
     big = list(boundary_cases(tier))
     jobs = [("small", ch) for ch in par.chunks(small, par.NPROC * 3)] + [("big", [b]) for b in big]
+    gl = list(global_cases(tier))
+    jobs += [("global", ch) for ch in par.chunks(gl, par.NPROC)]
     res = par.pmap(_shard, jobs, seed=seed)
+    res.extra["cluster_level_cases"] = len(gl)
     res.extra["small_multisets"] = len(small)
     res.extra["boundary_streams"] = len(big)
     res.states = res.evaluations
@@ -342,7 +463,10 @@ def replay(data):
 
     logging.disable(logging.CRITICAL)
     res = Result()
-    if data.get("structured"):
+    if data.get("global"):
+        g = data["global"]
+        check_global((g[0], tuple(g[1]), g[2]), res)
+    elif data.get("structured"):
         for spec, recs in boundary_cases("thorough"):
             if {str(k): len(r) for k, r in recs.items()} == data["sizes"]:
                 check_case(recs, res, True)
